@@ -39,6 +39,7 @@ fn main() {
         "C02" => dispatch::<scn::c02_total::C02>(cmd, rest),
         "C04" => dispatch::<scn::c04_c05_session::C04>(cmd, rest),
         "C05" => dispatch::<scn::c04_c05_session::C05>(cmd, rest),
+        "C08" => dispatch::<scn::c08_lossy::C08>(cmd, rest),
         "C19" => dispatch::<scn::c19_pgp::C19>(cmd, rest),
         other => {
             eprintln!("property {other} is not claimed by this engine");
